@@ -172,7 +172,7 @@ func dispOpts() kit.GenOpts {
 	return o
 }
 
-var dispHist = histOpts{MaxSteps: 20, MaxDepth: 3, CloseScopes: true, Cancels: false, CtxKinds: []int{0, 1, 2, 3}}
+var dispHist = histOpts{MaxSteps: 20, MaxDepth: 3, CloseScopes: true, Cancels: false, CtxKinds: []int{0, 1, 2, 3, 4}}
 
 // faultFor picks a fault kind applicable to the registration.
 func faultFor(reg *kit.Reg, variant int) kit.Fault {
@@ -576,7 +576,7 @@ func TestC12CloseErrors(t *testing.T) {
 			col.Case(false, cfg.String(), nil, "build-failed(not judged here)")
 			return
 		}
-		x.genHistory(rt, histOpts{MaxSteps: 18, MaxDepth: 3, CloseScopes: true, RepeatClose: true, Cancels: true, CtxKinds: []int{0, 1, 2, 3}})
+		x.genHistory(rt, histOpts{MaxSteps: 18, MaxDepth: 3, CloseScopes: true, RepeatClose: true, Cancels: true, CtxKinds: []int{0, 1, 2, 3, 4}})
 		script := x.Script
 		var disp []*kit.Entry
 		for _, e := range x.containerMade() {
